@@ -160,6 +160,10 @@ def run(repo, rep, tier):
              ("statement-space", "statement-expression-width",
               "split-parts-steps"), minimum=3)
     L.option_defaults_rule(repo, rep, "R07.5", ("boolean_attributes",))
+    # (C09 owns the element details)
+    from . import c09 as _c09
+    L.borrow(repo, rep, "R07.4", "C09", _c09.element_details,
+             ("quote-when-computed", "decode-which"))
     L.state_rule(repo, rep)
 
 
